@@ -138,8 +138,81 @@ func renderDoc(d *dv, form int) (string, string) {
 	}
 }
 
+// c03ladders: nothing is lost or altered when the document uses merges - a chain of mappings each merging the
+// previous one and overriding some of its keys (before or after its own `<<`), merged into a command step.
+// The expected value of every key is computed here from the merge rule (an explicit key beats a merged one).
+func c03ladders(rng *sx.Rng, n int) {
+	keys := []string{"ka", "kb", "kc", "kd", "timeout_in_minutes"}
+	for i := 0; i < n; i++ {
+		depth := 2 + rng.Intn(3)
+		want := map[string]string{}
+		var b strings.Builder
+		for lv := 0; lv < depth; lv++ {
+			var parts []string
+			for _, k := range keys {
+				if rng.Chance(45) {
+					v := fmt.Sprintf("v%d_%s", lv, k)
+					want[k] = v // the nearest level that writes the key explicitly wins
+					parts = append(parts, k+": "+v)
+				}
+			}
+			if lv > 0 {
+				pos := rng.Intn(len(parts) + 1)
+				parts = append(parts[:pos], append([]string{fmt.Sprintf("<<: *l%d", lv-1)}, parts[pos:]...)...)
+			}
+			fmt.Fprintf(&b, "l%d: &l%d {%s}\n", lv, lv, strings.Join(parts, ", "))
+		}
+		var own []string
+		for _, k := range keys {
+			if rng.Chance(20) {
+				want[k] = "own_" + k
+				own = append(own, k+": own_"+k)
+			}
+		}
+		pos := rng.Intn(len(own) + 1)
+		own = append(own[:pos], append([]string{fmt.Sprintf("<<: *l%d", depth-1)}, own[pos:]...)...)
+		fmt.Fprintf(&b, "steps:\n- {command: c, %s}\n", strings.Join(own, ", "))
+		text := b.String()
+		c := sx.L(sx.A("yaml-merge-ladder"), sx.A(text))
+		p, err := pipeline.Parse(strings.NewReader(text))
+		if err != nil && !warning.Is(err) {
+			oracleFail("C03", "ladder-parse-error", c, err.Error())
+			continue
+		}
+		cs, ok := p.Steps[0].(*pipeline.CommandStep)
+		if len(p.Steps) != 1 || !ok {
+			oracleFail("C03", "ladder-kind", c, fmt.Sprintf("the step came back as %T", p.Steps[0]))
+			continue
+		}
+		bad := ""
+		for _, k := range keys {
+			got, has := cs.RemainingFields[k]
+			w, wantHas := want[k]
+			if has != wantHas || has && fmt.Sprint(got) != w {
+				bad = fmt.Sprintf("key %s: got %v (present %v), the merge rule gives %q (present %v)", k, got, has, w, wantHas)
+			}
+		}
+		if len(cs.RemainingFields) != len(want) {
+			bad = fmt.Sprintf("%d unknown keys on the step, expected %d", len(cs.RemainingFields), len(want))
+		}
+		if bad != "" {
+			oracleFail("C03", "ladder-value", c, bad)
+			continue
+		}
+		stat("C03", "merge-ladders")
+		if r, badp := runParse(text, "yaml-merge-ladder"); badp == "" && r != nil && r.obs != nil {
+			fmt.Fprintf(out2(), "CASE\tC03\t%s\t%s\t1\n", sx.String(r.caseSx), sx.String(r.obs))
+		}
+	}
+}
+
 func init() {
 	props["C03"] = func(rng *sx.Rng, thorough bool) {
+		if thorough {
+			c03ladders(rng, 5000)
+		} else {
+			c03ladders(rng, 300)
+		}
 		n := 2000
 		if thorough {
 			n = 50000
